@@ -30,7 +30,10 @@ pub struct ProbeF { id: usize, log: Log, kind: FK }
 impl Filter<i64> for ProbeF { type Output = i64; fn filter(&mut self, x: i64) -> i64 {
     self.log.borrow_mut().push((self.id, x));
     match &mut self.kind { FK::Int(f) => f.filter(x), FK::Diff(f) => f.filter(x), FK::Del(f) => f.filter(x), FK::Aff => 2 * x + 1 } } }
-pub struct ProbeS { id: usize, log: Log, inner: FromIter<std::vec::IntoIter<i64>> }
+/// scripted source: -999 in the script is a `None` answer after which the source may deliver again
+#[derive(Clone)] pub struct Script { items: std::collections::VecDeque<i64> }
+impl Source for Script { type Output = i64; fn source(&mut self) -> Option<i64> { match self.items.pop_front() { Some(-999) | None => None, Some(v) => Some(v) } } }
+pub struct ProbeS { id: usize, log: Log, inner: FromIter<signalo_sources::into_iter::IntoIter<Script>> }
 impl Source for ProbeS { type Output = i64; fn source(&mut self) -> Option<i64> { self.log.borrow_mut().push((self.id, -1)); self.inner.source() } }
 enum KK { Sum(SumSink<i64>), Max(MaxSink<i64>), Col(Collect<Vec<i64>>) }
 pub struct ProbeK { id: usize, log: Log, kind: KK }
@@ -73,7 +76,7 @@ impl<'a> Ctx<'a> {
     }
     pub fn build_s(&self, t: &Tree) -> DynS {
         match t {
-            L(j) => DynS(Box::new(ProbeS { id: *j, log: self.log.clone(), inner: FromIter::from(self.src.to_vec()) })),
+            L(j) => DynS(Box::new(ProbeS { id: *j, log: self.log.clone(), inner: FromIter::from(signalo_sources::into_iter::IntoIter::from(Script { items: self.src.iter().cloned().collect() })) })),
             U(a) => DynS(Box::new(UnitPipe::new(self.build_s(a)))),
             P(a, b) => DynS(Box::new(Pipe::new(self.build_s(a), self.build_f(b)))),
             B(a, b) => match &**a {
